@@ -144,8 +144,8 @@ func checkC05(p *Program, r *Report) {
 	models, _ := p.Registry()
 	wrapperOf := map[*ssa.Function]*Model{}
 	for _, m := range models {
-		if m.Closure != nil {
-			wrapperOf[m.Closure] = m
+		if m.GoClosure != nil {
+			wrapperOf[m.GoClosure] = m
 		}
 	}
 	// buffers aliasing the shared state array must not grow (cross-cell overlap through slice capacity)
@@ -173,11 +173,23 @@ func checkC05(p *Program, r *Report) {
 			bad = true
 			r.Fail("R05.1", key+":"+sub, pos, msg)
 		}
+		type capt struct {
+			cl *ssa.Function
+			mc *ssa.MakeClosure
+		}
+		caps := []capt{}
 		if s.mc != nil {
-			for j, b := range s.mc.Bindings {
-				fv := s.cl.FreeVars[j]
+			caps = append(caps, capt{s.cl, s.mc})
+		}
+		if m := wrapperOf[s.cl]; m != nil && m.ClosureMC != nil && m.Closure != s.cl {
+			caps = append(caps, capt{m.Closure, m.ClosureMC}) // the per-cell body the goroutine calls
+		}
+		for _, cp := range caps {
+			scl, smc := cp.cl, cp.mc
+			for j, b := range smc.Bindings {
+				fv := scl.FreeVars[j]
 				name := fv.Name()
-				if st := closureStoresToFree(s.cl, fv, map[*ssa.Function]bool{}); st != nil {
+				if st := closureStoresToFree(scl, fv, map[*ssa.Function]bool{}); st != nil {
 					fail(name+":assigned-in-goroutine", p.Pos(st.Pos()), fmt.Sprintf("captured variable %s is assigned inside the goroutine while the spawner and sibling goroutines share it", name))
 				}
 				for _, st := range storesAfter(b, s.g) {
@@ -190,7 +202,7 @@ func checkC05(p *Program, r *Report) {
 				elem := pt.Elem()
 				switch {
 				case isSliceType(elem):
-					if mw := eff.MutatesFree(s.cl, j); mw != nil {
+					if mw := eff.MutatesFree(scl, j); mw != nil {
 						fail(name+":shared-vector-written", p.Pos(mw.site.Pos()), fmt.Sprintf("index vector %s is shared by all goroutines but written in the goroutine: %s", name, mw.what))
 					}
 					// spawner writes elements after go
@@ -216,14 +228,14 @@ func checkC05(p *Program, r *Report) {
 						// writes judged by the per-cell footprint rule
 						continue
 					}
-					if mw := eff.MutatesFree(s.cl, j); mw != nil {
+					if mw := eff.MutatesFree(scl, j); mw != nil {
 						fail(name+":shared-array-written", p.Pos(mw.site.Pos()), fmt.Sprintf("array %s is shared with the spawner and written in the goroutine: %s", name, mw.what))
 					}
 				default:
 					if _, isChan := elem.Underlying().(*types.Chan); isChan {
 						continue
 					}
-					if st := fieldStoresThrough(s.cl, fv); st != nil {
+					if st := fieldStoresThrough(scl, fv); st != nil {
 						fail(name+":object-written", p.Pos(st.Pos()), fmt.Sprintf("object reached through captured variable %s is stored to in the goroutine", name))
 					}
 				}
